@@ -21,17 +21,22 @@ Q make(const mpq_class &v);
 
 class Q {
   mpq_class v_;
+  // The documented requirements say the scalar type is default-constructible; they do NOT say that T() is zero. A
+  // default-constructed Q is therefore INDETERMINATE: the flag propagates through arithmetic and copies, comparisons
+  // involving it are false (like NaN), and reading its value in the harness throws. Library code that relies on
+  // value-initialised scalars being zero produces indeterminate results, which the exact checks then report.
+  bool indet_ = false;
   friend const mpq_class &vq::raw(const Q &);
   friend Q vq::make(const mpq_class &);
 
  public:
-  Q() : v_(0) {}
+  Q() : v_(0), indet_(true) {}
 #ifdef VERIF_PERMISSIVE_Q
   // Fallback flavour, used ONLY when the tree under test no longer compiles with the strict archetype (which is a C19
   // violation and reported there): implicit construction from any built-in arithmetic type, so that the other
   // properties can still be decided on such a tree instead of ending inconclusive.
   template <class A, std::enable_if_t<std::is_arithmetic<A>::value, bool> = true>
-  Q(A a) {
+  Q(A a) : indet_(false) {
     if constexpr (std::is_floating_point<A>::value) v_ = mpq_class((double)a);
     else v_ = mpq_class((long)a);
   }
@@ -43,10 +48,12 @@ class Q {
   Q(Q &&) = default;
   Q &operator=(Q &&) = default;
 
-  Q &operator+=(const Q &o) { v_ += o.v_; return *this; }
-  Q &operator-=(const Q &o) { v_ -= o.v_; return *this; }
-  Q &operator*=(const Q &o) { v_ *= o.v_; return *this; }
+  Q &operator+=(const Q &o) { v_ += o.v_; indet_ = indet_ || o.indet_; return *this; }
+  Q &operator-=(const Q &o) { v_ -= o.v_; indet_ = indet_ || o.indet_; return *this; }
+  Q &operator*=(const Q &o) { v_ *= o.v_; indet_ = indet_ || o.indet_; return *this; }
   Q &operator/=(const Q &o) {
+    indet_ = indet_ || o.indet_;
+    if (o.indet_) return *this;
     if (o.v_ == 0) throw std::domain_error("Q: division by zero");
     v_ /= o.v_;
     return *this;
@@ -55,25 +62,30 @@ class Q {
   friend Q operator-(Q a, const Q &b) { a -= b; return a; }
   friend Q operator*(Q a, const Q &b) { a *= b; return a; }
   friend Q operator/(Q a, const Q &b) { a /= b; return a; }
-  Q operator-() const { Q r; r.v_ = -v_; return r; }
-  friend bool operator==(const Q &a, const Q &b) { return a.v_ == b.v_; }
-  friend bool operator!=(const Q &a, const Q &b) { return a.v_ != b.v_; }
-  friend bool operator<(const Q &a, const Q &b) { return a.v_ < b.v_; }
-  friend bool operator<=(const Q &a, const Q &b) { return a.v_ <= b.v_; }
-  friend bool operator>(const Q &a, const Q &b) { return a.v_ > b.v_; }
-  friend bool operator>=(const Q &a, const Q &b) { return a.v_ >= b.v_; }
+  Q operator-() const { Q r; r.v_ = -v_; r.indet_ = indet_; return r; }
+  friend bool operator==(const Q &a, const Q &b) { return !a.indet_ && !b.indet_ && a.v_ == b.v_; }
+  friend bool operator!=(const Q &a, const Q &b) { return a.indet_ || b.indet_ || a.v_ != b.v_; }
+  friend bool operator<(const Q &a, const Q &b) { return !a.indet_ && !b.indet_ && a.v_ < b.v_; }
+  friend bool operator<=(const Q &a, const Q &b) { return !a.indet_ && !b.indet_ && a.v_ <= b.v_; }
+  friend bool operator>(const Q &a, const Q &b) { return !a.indet_ && !b.indet_ && a.v_ > b.v_; }
+  friend bool operator>=(const Q &a, const Q &b) { return !a.indet_ && !b.indet_ && a.v_ >= b.v_; }
+  bool indeterminate() const { return indet_; }
 };
 
 namespace vq {
-inline const mpq_class &raw(const Q &q) { return q.v_; }
+inline const mpq_class &raw(const Q &q) {
+  if (q.indet_) throw std::logic_error("a result depends on a default-constructed scalar (the documented requirements do not make T() zero)");
+  return q.v_;
+}
 inline Q make(const mpq_class &v) {
   Q r;
   r.v_ = v;
   r.v_.canonicalize();
+  r.indet_ = false;
   return r;
 }
 inline Q frac(long n, long d) { return make(mpq_class(n, d)); }
 inline std::string str(const mpq_class &v) { return v.get_str(); }
-inline std::string str(const Q &q) { return raw(q).get_str(); }
+inline std::string str(const Q &q) { return q.indeterminate() ? std::string("<indeterminate>") : raw(q).get_str(); }
 }  // namespace vq
 #endif
